@@ -158,6 +158,8 @@ def r183(ctx):
         if ok:
             lam = idx.args[1][0]
             ok = lam.op == "lam" and lam.args[1] is mk("call", mk("attr", mk("bv", 0), "union"), (mk("bv", 1),), ())
+            seq = idx.args[1][1] if len(idx.args[1]) > 1 else None
+            ok = ok and seq is not None and seq.op == "comp" and seq.args[2][0][0] is S and seq.args[1] is mk("attr", mk("elem", S), "index")
     ctx.ob("R18.3", ra.func, None, ok, "samples are re-indexed (without fill) to the union of their indices, so groups missing "
            "from a resample are NaN there and skipped by nanquantile", construct="index alignment")
 
